@@ -592,4 +592,55 @@ func checkC07(c *Check) {
 		}
 		c.Hold("R4", "FetchRecord:domain-of-the-record", fr.FI.Decl.Pos(), msg5 == "", msg5)
 	}
+
+	// ---- R5: FetchRecord fails closed. A failed TXT lookup counts as "no record here" only when it is a DNS error that
+	// says the name does not exist; every other failure (time-out, SERVFAIL, a foreign error type) is returned, so that
+	// Verifier.Apply can refuse temporarily (R2) instead of accepting a message whose policy could not be read.
+	c.Rule("R5", "FetchRecord: after a failed TXT lookup the records are looked at only in the world 'the error is a DNS error and says not-found'; in the worlds 'another error type' and 'a DNS error other than not-found' the function returns before using them", 2)
+	if fr := c.In("internal/dmarc", "", "FetchRecord"); fr != nil {
+		fi := fr.Info
+		look := func(info *types.Info, call *ast.CallExpr) bool { return methodName(call) == "LookupTXT" }
+		for i, pt := range fr.Calls(look) {
+			key := "FetchRecord:lookup" + itoa(i+1)
+			call := fr.CallAt(pt, look)
+			as, ok := pt.Node().(*ast.AssignStmt)
+			eo := errVarAssigned(fi, pt.Node(), call)
+			if !ok || eo == nil || len(as.Lhs) != 2 {
+				c.Hold("R5", key, call.Pos(), false, "the error of the TXT lookup is not looked at")
+				continue
+			}
+			txts := objOf(fi, as.Lhs[0])
+			usesTxts := func(q Pt) bool { return q != pt && q.Node() != nil && mentions(fi, q.Node(), txts) }
+			world := func(isDNSErr, notFound bool) func(b *cfgBlock, i int) bool {
+				return fr.F.World(func(atom ast.Expr) (bool, bool) {
+					if id, isID := ast.Unparen(atom).(*ast.Ident); isID {
+						if v, isVar := fi.Uses[id].(*types.Var); isVar && isBoolType(v.Type()) {
+							// the ok of `dnsErr, ok := err.(*net.DNSError)`
+							if def, _ := localDef(fi, fr.FI.Decl.Body, v); def != nil {
+								if ta, isTA := ast.Unparen(def).(*ast.TypeAssertExpr); isTA && objOf(fi, ta.X) != nil && isErrorType(objOf(fi, ta.X).Type()) {
+									return isDNSErr, true
+								}
+							}
+						}
+					}
+					if sel, isSel := ast.Unparen(atom).(*ast.SelectorExpr); isSel && sel.Sel.Name == "IsNotFound" {
+						return notFound, true
+					}
+					if call, isC := ast.Unparen(atom).(*ast.CallExpr); isC && isCall(fi, call, "~/framework/dns.IsNotFound") {
+						return isDNSErr && notFound, true
+					}
+					return false, false
+				})
+			}
+			msg := ""
+			if path, f := fr.F.ReachRefined2(pt, eo, false, false, usesTxts, nil, world(false, false)); f {
+				msg = "a lookup failure that is not a DNS error is treated as 'no record' (the message is judged without the policy): " + fr.F.Describe(path)
+			} else if path, f := fr.F.ReachRefined2(pt, eo, false, false, usesTxts, nil, world(true, false)); f {
+				msg = "a DNS failure other than 'not found' (time-out, SERVFAIL) is treated as 'no record' – fail open: " + fr.F.Describe(path)
+			} else if _, f := fr.F.ReachRefined2(pt, eo, false, false, usesTxts, nil, world(true, true)); !f {
+				msg = "a name that does not exist is reported as a lookup failure instead of 'no record here' (mail from every domain without a DMARC record is refused temporarily)"
+			}
+			c.Hold("R5", key, call.Pos(), msg == "", msg)
+		}
+	}
 }
